@@ -288,7 +288,7 @@ def main(argv):
         if r:
             found = {"case": c, "disagreement": r}
             break
-    res = {"cases": n, "found": [found] if found else [], "errors": sorted(set(errors))[:5]}
+    res = {"cases": n, "shapes": len(TABLE), "found": [found] if found else [], "errors": sorted(set(errors))[:5]}
     if found and "replay_path" in opts:
         os.makedirs(os.path.dirname(opts["replay_path"]), exist_ok=True)
         c = found["case"]
